@@ -16,6 +16,7 @@ package scanner
 
 import (
 	"container/list"
+	"sync"
 	"time"
 )
 
@@ -25,6 +26,8 @@ type compactRecord struct {
 }
 
 type compactRecordQueue struct {
+	// compaction can be requested concurrently
+	sync.Mutex
 	list *list.List
 }
 
